@@ -17,6 +17,7 @@
 
 namespace vf {
 
+void (*g_note_plan)(Plan const&) = nullptr;
 static std::vector<Engine*>* g_engines;
 void register_engine(Engine* e)
 {
@@ -329,8 +330,23 @@ int cmd_worker(Args const& a)
 		int dn = open("/dev/null", O_WRONLY);
 		if (dn >= 0) { dup2(dn, 1); close(dn); }
 	}
+	static int s_pfd = -1;
+	s_pfd = pfd;
+	static int64_t s_run = -1;
+	static std::string s_flav;
+	s_flav = a.get("flavour");
+	g_note_plan = [](Plan const& pl) {
+		if (s_pfd < 0) return;
+		Plan c = pl;
+		c.run = s_run;
+		c.flavour = s_flav;
+		std::string const j = c.to_json().str();
+		if (pwrite(s_pfd, j.data(), j.size(), 0) < 0) {}
+		if (ftruncate(s_pfd, off_t(j.size())) < 0) {}
+	};
 	for (int64_t i = start; i < total; i += stride)
 	{
+		s_run = i;
 		if (deadline > 0 && now_s() > deadline && i < nseeded)
 		{
 			// out of time for seeded runs: skip ahead to the supplement share
@@ -361,6 +377,7 @@ int cmd_worker(Args const& a)
 			std::fflush(out);
 			continue;
 		}
+		if (ctx.sub_runs) ctx.cnt["sub_executions"] += ctx.sub_runs;
 		std::string cs;
 		for (auto const& kv : ctx.cnt)
 		{
@@ -374,6 +391,12 @@ int cmd_worker(Args const& a)
 			, (long long)ctx.sim_ns, (unsigned long long)ctx.handlers, ctx.nontrivial ? 1 : 0, cs.c_str());
 		if (ctx.violated)
 		{
+			if (ctx.has_pinned)
+			{
+				Plan c = ctx.pinned;
+				c.engine = plan.engine; c.prop = plan.prop; c.seed = plan.seed; c.run = plan.run; c.flavour = plan.flavour;
+				pj = c.to_json().str();
+			}
 			if (pj.empty()) pj = plan.to_json().str();
 			std::fprintf(out, "P %lld %s\n", (long long)i, pj.c_str());
 			std::fprintf(out, "D %lld %s\n", (long long)i, one_line(ctx.detail).c_str());
